@@ -4,8 +4,8 @@
    and entries of other paths are not touched.  Same architecture as the stabilisation
    theorem of RenderProofs.v (one lemma per loop, nested induction with [code_ind']). *)
 From Jen Require Import Base.Bytes Base.Num Base.Sort Model.Code Model.Naming Model.Render Model.FileRender Gen.Tables.
-From Jen Require Import Proofs.NamingProofs Proofs.RenderProofs.
-From Coq Require Import Lia Permutation.
+From Jen Require Import GoStd.Quote Proofs.NamingProofs Proofs.RenderProofs Proofs.DictProofs Proofs.ImportsProofs.
+From Coq Require Import Lia Permutation Sorted.
 Local Open Scope bool_scope.
 
 (* ------------------------------------------------------------------ association lists *)
@@ -549,3 +549,553 @@ Section Occs.
     render cfg ctx t c = Ok (t1, s) -> forall p, In p (occs t c) -> exists q, registered_name t1 p = Some q.
   Proof. intros H. exact (proj2 (proj2 (proj2 (render_grows c ctx t t1 s H)))). Qed.
 End Occs.
+
+(* ------------------------------------------------------------------ the File level (C04) *)
+Lemma file_raw_render f t1 raw :
+  file_raw f = Ok (t1, raw) ->
+  exists s, render (file_cfg f) false (f_imports f) (file_group f) = Ok (t1, s) /\
+            raw = file_head f ++ render_imports t1 (f_cgo f) ++ s.
+Proof.
+  unfold file_raw. destruct (render (file_cfg f) false (f_imports f) (file_group f)) as [[t s]|m]; cbn [bind fst snd]; [|discriminate].
+  intros H. injection H as <- <-. exists s. split; reflexivity.
+Qed.
+
+(* the body of a File is a group without name: every top-level item counts *)
+Lemma occs_file_group cfg t f : occs cfg t (file_group f) = flat_map (item_occs cfg t) (f_items f).
+Proof. reflexivity. Qed.
+
+(* EXACTNESS: after File.Render the import table has exactly the paths it had before (the
+   Anon set of a freshly built File) and the paths of occs of the body *)
+Theorem file_imports_exact f t1 raw :
+  cfg_ok (file_cfg f) -> file_raw f = Ok (t1, raw) ->
+  forall p, In p (akeys t1) <->
+            In p (akeys (f_imports f)) \/ In p (occs (file_cfg f) (f_imports f) (file_group f)).
+Proof.
+  intros Hc Hr. destruct (file_raw_render _ _ _ Hr) as (s & Hs & _).
+  eapply render_registers_occs; eassumption.
+Qed.
+
+(* ... the entries of all other paths (Anon entries, earlier registrations) are untouched,
+   and every path of occs carries a registration *)
+Theorem file_imports_entries f t1 raw :
+  cfg_ok (file_cfg f) -> file_raw f = Ok (t1, raw) ->
+  (forall q, ~ In q (occs (file_cfg f) (f_imports f) (file_group f)) -> alookup q t1 = alookup q (f_imports f)) /\
+  (forall p, In p (occs (file_cfg f) (f_imports f) (file_group f)) -> exists q, registered_name t1 p = Some q).
+Proof.
+  intros Hc Hr. destruct (file_raw_render _ _ _ Hr) as (s & Hs & _). split.
+  - exact (proj2 (render_keeps_entries _ Hc _ _ _ _ _ Hs)).
+  - exact (render_occs_registered _ Hc _ _ _ _ _ Hs).
+Qed.
+
+Lemma anon_fold_dom ps : forall t p,
+  In p (akeys (fold_left (fun t p => aset p (mkdef s_us true) t) ps t)) <-> In p (akeys t) \/ In p ps.
+Proof.
+  induction ps as [|x ps IH]; intros t p; cbn [fold_left]; [simpl; tauto|].
+  rewrite IH, akeys_aset_In. simpl. split; [intros [[H|H]|H]; auto | intros [H|[H|H]]; auto].
+Qed.
+
+(* Anon adds exactly its paths to the table *)
+Lemma anon_dom f ps p : In p (akeys (f_imports (anon f ps))) <-> In p (akeys (f_imports f)) \/ In p ps.
+Proof. apply anon_fold_dom. Qed.
+
+(* the name "_" (and the empty name) does not count as a registration *)
+Lemma anon_entry_unregistered t p : alookup p t = Some (mkdef s_us true) -> registered_name t p = None.
+Proof. intros H. unfold registered_name. rewrite H. reflexivity. Qed.
+
+Lemma file_render_NoDup f t1 raw :
+  file_raw f = Ok (t1, raw) -> NoDup (akeys (f_imports f)) -> NoDup (akeys t1).
+Proof. intros Hr. destruct (file_raw_render _ _ _ Hr) as (s & Hs & _). eapply render_NoDup. exact Hs. Qed.
+
+Lemma anon_NoDup f ps : NoDup (akeys (f_imports f)) -> NoDup (akeys (f_imports (anon f ps))).
+Proof.
+  unfold anon. cbn [f_imports set_imports]. generalize (f_imports f) as t.
+  induction ps as [|x ps IH]; intros t H; cbn [fold_left]; [exact H|]. apply IH. apply akeys_aset_NoDup. exact H.
+Qed.
+
+(* ------------------------------------------------------------------ the import block *)
+Lemma concat_str_app a b : concat_str (a ++ b) = concat_str a ++ concat_str b.
+Proof. induction a as [|x a IH]; [reflexivity|]. cbn [app concat_str]. rewrite IH, app_assoc. reflexivity. Qed.
+
+(* the entries the main import declaration lists: all of them, except "C" when a cgo preamble
+   exists (it is then printed under the preamble) *)
+Definition listed (t : table) (cgo : list str) : table :=
+  if nonempty_list cgo then filter (fun e => negb (str_eqb (fst e) s_C)) t else t.
+
+Lemma akeys_filter_NoDup (f : str * importdef -> bool) (t : table) : NoDup (akeys t) -> NoDup (akeys (filter f t)).
+Proof.
+  induction t as [|e l IH]; intros Hnd; [constructor|]. cbn [filter]. inversion Hnd as [|? ? Hni Hnd']; subst.
+  destruct (f e); [|apply IH; exact Hnd']. cbn [akeys map]. constructor; [|apply IH; exact Hnd'].
+  intros Hin. apply Hni. unfold akeys in *. rewrite in_map_iff in *. destruct Hin as (x & Hx & Hin).
+  exists x. split; [exact Hx|]. apply filter_In in Hin. tauto.
+Qed.
+
+Theorem imports_block_exact t cgo :
+  NoDup (akeys t) ->
+  render_imports t cgo = main_block (listed t cgo) ++ (if nonempty_list cgo then preamble_block cgo else []) /\
+  Permutation (isort_by fst (listed t cgo)) (listed t cgo) /\
+  NoDup (akeys (isort_by fst (listed t cgo))) /\
+  (forall p d, In (p, d) (listed t cgo) <-> In (p, d) t /\ (cgo = [] \/ p <> s_C)).
+Proof.
+  intros Hnd. split; [|split; [apply isort_by_perm | split]].
+  - destruct cgo as [|c cgo]; unfold listed; cbn [nonempty_list].
+    + rewrite render_imports_plain, app_nil_r. reflexivity.
+    + apply render_imports_preamble. discriminate.
+  - assert (Hl : NoDup (akeys (listed t cgo))).
+    { unfold listed. destruct (nonempty_list cgo); [apply akeys_filter_NoDup|]; exact Hnd. }
+    eapply Permutation_NoDup; [|exact Hl]. apply Permutation_map, Permutation_sym, isort_by_perm.
+  - intros p d. unfold listed. destruct cgo as [|c cgo]; cbn [nonempty_list].
+    + split; [intros H; split; [exact H | left; reflexivity] | intros [H _]; exact H].
+    + rewrite filter_In. cbn [fst]. split.
+      * intros [H Hn]. split; [exact H|]. right. apply negb_true_iff, str_eqb_neq in Hn. exact Hn.
+      * intros [H [Hn|Hn]]; [discriminate|]. split; [exact H|]. apply negb_true_iff, str_eqb_neq. exact Hn.
+Qed.
+
+Lemma main_block_has_spec l p d :
+  In (p, d) l -> exists pre post, main_block l = pre ++ import_spec p d ++ [x0a] ++ post.
+Proof.
+  intros Hin. destruct l as [|a [|b l0]].
+  - destruct Hin.
+  - destruct Hin as [->|[]]. exists (S "import "), [x0a]. reflexivity.
+  - unfold main_block. apply (isort_by_In fst) in Hin. apply in_split in Hin. destruct Hin as (l1 & l2 & ->).
+    rewrite map_app, concat_str_app. cbn [map concat_str fst snd].
+    exists (S "import (" ++ [x0a] ++ concat_str (map (fun e => import_spec (fst e) (snd e) ++ [x0a]) l1)),
+           (concat_str (map (fun e => import_spec (fst e) (snd e) ++ [x0a]) l2) ++ S ")" ++ [x0a; x0a]).
+    rewrite <- !app_assoc. reflexivity.
+Qed.
+
+(* the block contains the line of every entry of the table ("C" under the preamble) *)
+Theorem render_imports_has_spec t cgo p d :
+  In (p, d) t -> exists pre post, render_imports t cgo = pre ++ import_spec p d ++ [x0a] ++ post.
+Proof.
+  intros Hin. destruct cgo as [|c cgo].
+  - rewrite render_imports_plain. apply main_block_has_spec. exact Hin.
+  - rewrite render_imports_preamble by discriminate.
+    destruct (str_eqb_spec p s_C) as [->|Hp].
+    + unfold preamble_block.
+      assert (Hs : import_spec s_C d = [c_dq] ++ S "C" ++ [c_dq]).
+      { unfold import_spec. rewrite str_eqb_refl. cbn [negb]. rewrite andb_false_r. vm_compute. reflexivity. }
+      rewrite Hs.
+      exists (main_block (filter (fun e => negb (str_eqb (fst e) s_C)) t) ++
+              concat_str (map (fun c0 => comment_text c0 ++ [x0a]) (c :: cgo)) ++ S "import "), [x0a].
+      rewrite <- !app_assoc. reflexivity.
+    + destruct (main_block_has_spec (filter (fun e => negb (str_eqb (fst e) s_C)) t) p d) as (pre & post & E).
+      { apply filter_In. split; [exact Hin|]. cbn [fst]. apply negb_true_iff, str_eqb_neq. exact Hp. }
+      rewrite E. exists pre, (post ++ preamble_block (c :: cgo)). rewrite <- !app_assoc. reflexivity.
+Qed.
+
+(* ------------------------------------------------------------------ hints and the domain *)
+(* trees in which every package token sits where Qual puts it: first item of a group whose
+   second and last item is the identifier (jen/tokens.go, Qual; no other function of the
+   library creates a package token) *)
+Definition is_qual_items (items : list code) : bool :=
+  match items with [CTok (TkPkg _); CTok (TkId _)] => true | _ => false end.
+
+Fixpoint qual_only (c : code) : bool :=
+  match c with
+  | CTok (TkPkg _) => false
+  | CGroup _ _ _ _ _ _ items => is_qual_items items || forallb qual_only items
+  | CStmt items => forallb qual_only items
+  | CDict pairs => forallb (fun kv => qual_only (fst kv) && qual_only (snd kv)) pairs
+  | _ => true
+  end.
+
+Lemma is_qual_items_inv items :
+  is_qual_items items = true -> exists p n, items = [CTok (TkPkg p); CTok (TkId n)].
+Proof.
+  destruct items as [|a [|b [|c l]]]; try discriminate;
+    destruct a as [| | |ta| | | | |]; try discriminate; destruct ta; try discriminate;
+    destruct b as [| | |tb| | | | |]; try discriminate; destruct tb; try discriminate.
+  intros _. eexists _, _. reflexivity.
+Qed.
+
+Section Hints.
+  Variables cfg cfg' : config.
+  Hypothesis Hpath : cfg_path cfg = cfg_path cfg'.
+  Variables t t' : table.
+
+  Lemma is_local_same p : is_local cfg p = is_local cfg' p.
+  Proof. unfold is_local. rewrite Hpath. reflexivity. Qed.
+
+  (* null-ness of such a tree depends neither on the hints nor on the table: a Qual group
+     is never null, and nothing else contains a package token *)
+  Lemma qual_only_null c : qual_only c = true -> is_null cfg t c = is_null cfg' t' c.
+  Proof.
+    induction c as [| | |tk|gid name o cl sep multi items IH|items IH|pairs IH|kvs|s] using code_ind';
+      cbn [qual_only is_null]; intros H; try reflexivity.
+    - destruct tk; try reflexivity. discriminate.
+    - destruct (nonempty o || nonempty cl); [reflexivity|].
+      destruct (is_qual_items items) eqn:Eq.
+      + apply is_qual_items_inv in Eq. destruct Eq as (p & n & ->). cbn [forallb is_null andb].
+        rewrite !andb_false_r. reflexivity.
+      + cbn [orb] in H. clear Eq. induction IH as [|x l Hx _ IHl]; [reflexivity|]. cbn [forallb] in *.
+        apply andb_true_iff in H. destruct H as [Ha Hb]. rewrite (Hx Ha), (IHl Hb). reflexivity.
+    - induction IH as [|x l Hx _ IHl]; [reflexivity|]. cbn [forallb] in *.
+      apply andb_true_iff in H. destruct H as [Ha Hb]. rewrite (Hx Ha), (IHl Hb). reflexivity.
+    - induction IH as [|[k v] l [Hk Hv] _ IHl]; [reflexivity|]. cbn [forallb fst snd] in *.
+      apply andb_true_iff in H. destruct H as [Ha Hb]. apply andb_true_iff in Ha. destruct Ha as [Ha1 Ha2].
+      rewrite (Hk Ha1), (Hv Ha2), (IHl Hb). reflexivity.
+  Qed.
+
+  Lemma qual_only_forallb_null items :
+    is_qual_items items || forallb qual_only items = true ->
+    forallb (is_null cfg t) items = forallb (is_null cfg' t') items.
+  Proof.
+    destruct (is_qual_items items) eqn:Eq; cbn [orb].
+    - intros _. apply is_qual_items_inv in Eq. destruct Eq as (p & n & ->). cbn [forallb is_null andb].
+      rewrite !andb_false_r. reflexivity.
+    - clear Eq. intros H. induction items as [|x l IHl]; [reflexivity|]. cbn [forallb] in *.
+      apply andb_true_iff in H. destruct H as [Ha Hb].
+      rewrite (qual_only_null x Ha), (IHl Hb). reflexivity.
+  Qed.
+
+  Lemma pkg_item_occs c0 tt p q :
+    In p (item_occs c0 tt (CTok (TkPkg q))) <-> is_local c0 q = false /\ p = q.
+  Proof.
+    unfold item_occs. cbn [pre_occ occs]. destruct (is_local c0 q).
+    - destruct (is_null c0 tt (CTok (TkPkg q))); simpl; split; try tauto; intros [H _]; discriminate.
+    - destruct (is_null c0 tt (CTok (TkPkg q))); simpl; split;
+        try (intros [H|H]; [split; [reflexivity | symmetry; exact H] | tauto]);
+        try (intros [H|[H|H]]; [split; [reflexivity | symmetry; exact H] | split; [reflexivity | symmetry; exact H] | tauto]);
+        intros [_ ->]; left; reflexivity.
+  Qed.
+
+  (* ... and so does the set of paths it registers *)
+  Lemma qual_only_occs c : qual_only c = true -> forall p, In p (occs cfg t c) <-> In p (occs cfg' t' c).
+  Proof.
+    induction c as [| | |tk|gid name o cl sep multi items IH|items IH|pairs IH|kvs|s] using code_ind';
+      intros H p; try (cbn [occs]; tauto).
+    - destruct tk; try (cbn [occs]; tauto). discriminate.
+    - rewrite !occs_group. cbn [qual_only] in H. rewrite (qual_only_forallb_null items H).
+      destruct (str_eqb name s_types && forallb (is_null cfg' t') items); [tauto|].
+      destruct (is_qual_items items) eqn:Eq.
+      + apply is_qual_items_inv in Eq. destruct Eq as (q & n & ->). cbn [flat_map]. rewrite !app_nil_r.
+        rewrite !pkg_item_occs, is_local_same. reflexivity.
+      + cbn [orb] in H. rewrite !in_flat_map. rewrite Forall_forall in IH. rewrite forallb_forall in H.
+        assert (Hx : forall x, In x items -> (In p (item_occs cfg t x) <-> In p (item_occs cfg' t' x))).
+        { intros x Hin. unfold item_occs. rewrite (qual_only_null x (H x Hin)).
+          assert (Hpre : pre_occ cfg x = [] /\ pre_occ cfg' x = []).
+          { specialize (H x Hin). destruct x as [| | |tk| | | | |]; try (split; reflexivity).
+            destruct tk; try (split; reflexivity). discriminate. }
+          destruct Hpre as [-> ->]. cbn [app]. destruct (is_null cfg' t' x); [tauto|]. apply IH; auto. }
+        split; intros (x & Hin & Hp); exists x; (split; [exact Hin|]); apply (Hx x Hin); exact Hp.
+    - rewrite !occs_stmt, !in_flat_map. cbn [qual_only] in H. rewrite Forall_forall in IH. rewrite forallb_forall in H.
+      assert (Hx : forall x, In x items -> (In p (stmt_item_occs cfg t x) <-> In p (stmt_item_occs cfg' t' x))).
+      { intros x Hin. unfold stmt_item_occs. rewrite (qual_only_null x (H x Hin)).
+        destruct (is_null cfg' t' x); [tauto|]. apply IH; auto. }
+      split; intros (x & Hin & Hp); exists x; (split; [exact Hin|]); apply (Hx x Hin); exact Hp.
+    - rewrite !occs_dict, !in_flat_map. cbn [qual_only] in H. rewrite Forall_forall in IH. rewrite forallb_forall in H.
+      assert (Hx : forall kv, In kv pairs -> (In p (pair_occs cfg t kv) <-> In p (pair_occs cfg' t' kv))).
+      { intros kv Hin. unfold pair_occs, dead. specialize (H kv Hin). apply andb_true_iff in H. destruct H as [H1 H2].
+        rewrite (qual_only_null _ H1), (qual_only_null _ H2).
+        destruct (is_null cfg' t' (fst kv) || is_null cfg' t' (snd kv)); [tauto|].
+        destruct (IH kv Hin) as [Ik Iv]. rewrite !in_app_iff, (Ik H1 p), (Iv H2 p). tauto. }
+      split; intros (x & Hin & Hp); exists x; (split; [exact Hin|]); apply (Hx x Hin); exact Hp.
+  Qed.
+End Hints.
+
+(* HINTS ARE INERT: two renders of the same body from the same table under configurations
+   that differ in hints and prefix (same local path) end with the same set of paths *)
+Theorem hints_inert cfg cfg' c ctx ctx' t t1 s t1' s' :
+  cfg_ok cfg -> cfg_ok cfg' -> cfg_path cfg = cfg_path cfg' -> qual_only c = true ->
+  render cfg ctx t c = Ok (t1, s) -> render cfg' ctx' t c = Ok (t1', s') ->
+  forall p, In p (akeys t1) <-> In p (akeys t1').
+Proof.
+  intros Hc Hc' Hp Hq H H' p.
+  rewrite (render_registers_occs cfg Hc _ _ _ _ _ H p), (render_registers_occs cfg' Hc' _ _ _ _ _ H' p).
+  rewrite (qual_only_occs cfg cfg' Hp t t c Hq p). reflexivity.
+Qed.
+
+Lemma file_group_qual_only f : forallb qual_only (f_items f) = true -> qual_only (file_group f) = true.
+Proof. intros H. unfold file_group. cbn [qual_only]. rewrite H. apply orb_true_r. Qed.
+
+(* ------------------------------------------------------------------ null elements *)
+From Jen Require Import Proofs.NullProofs.
+
+Lemma flat_map_nil {A B} (f : A -> list B) l : (forall x, In x l -> f x = []) -> flat_map f l = [].
+Proof.
+  induction l as [|x l IH]; intros H; [reflexivity|]. cbn [flat_map].
+  rewrite (H x (or_introl eq_refl)), IH; [reflexivity|]. intros y Hy. apply H. right. exact Hy.
+Qed.
+
+Section NullOccs.
+  Variable cfg : config.
+  Variable t : table.
+
+  (* nil, Null(), empty tags, statements and delimiter-less groups of such items, Dicts
+     without a surviving pair: nothing *)
+  Lemma occs_nullish c : nullish c = true -> occs cfg t c = [].
+  Proof.
+    destruct c as [| | |tk|gid name o cl sep multi items|items|pairs|kvs|s]; try reflexivity; cbn [nullish]; intros H.
+    - destruct tk; try reflexivity. discriminate.
+    - apply andb_true_iff in H. destruct H as [_ H]. rewrite forallb_forall in H. rewrite occs_group.
+      destruct (str_eqb name s_types && forallb (is_null cfg t) items); [reflexivity|].
+      apply flat_map_nil. intros x Hx. unfold item_occs. rewrite (nullish_is_null cfg x (H x Hx) t).
+      specialize (H x Hx). destruct x as [| | |tk| | | | |]; try reflexivity. destruct tk; try reflexivity. discriminate.
+    - rewrite forallb_forall in H. rewrite occs_stmt. apply flat_map_nil. intros x Hx. unfold stmt_item_occs.
+      rewrite (nullish_is_null cfg x (H x Hx) t). reflexivity.
+    - rewrite forallb_forall in H. rewrite occs_dict. apply flat_map_nil. intros kv Hx. unfold pair_occs, dead.
+      specialize (H kv Hx). apply orb_true_iff in H.
+      destruct H as [H|H]; rewrite (nullish_is_null cfg _ H t); [|rewrite orb_true_r]; reflexivity.
+  Qed.
+
+  (* an item that is null at the table - whatever it contains - adds nothing to a statement *)
+  Lemma occs_stmt_null_item xs x ys :
+    is_null cfg t x = true -> occs cfg t (CStmt (xs ++ x :: ys)) = occs cfg t (CStmt (xs ++ ys)).
+  Proof.
+    intros H. rewrite !occs_stmt, !flat_map_app. cbn [flat_map]. unfold stmt_item_occs at 2. rewrite H. reflexivity.
+  Qed.
+
+  (* ... nor to a group, unless it is a package token (whose path the group registers first) *)
+  Lemma occs_group_null_item gid name o cl sep multi xs x ys :
+    is_null cfg t x = true -> pre_occ cfg x = [] ->
+    occs cfg t (CGroup gid name o cl sep multi (xs ++ x :: ys)) = occs cfg t (CGroup gid name o cl sep multi (xs ++ ys)).
+  Proof.
+    intros H Hp. rewrite !occs_group, !forallb_app. cbn [forallb]. rewrite H. cbn [andb].
+    destruct (str_eqb name s_types && (forallb (is_null cfg t) xs && forallb (is_null cfg t) ys)); [reflexivity|].
+    rewrite !flat_map_app. cbn [flat_map]. unfold item_occs at 2. rewrite H, Hp. reflexivity.
+  Qed.
+
+  (* a Dict pair with a null key or a null value adds nothing, whatever the other side holds *)
+  Lemma occs_dict_null_pair xs kv ys :
+    is_null cfg t (fst kv) || is_null cfg t (snd kv) = true ->
+    occs cfg t (CDict (xs ++ kv :: ys)) = occs cfg t (CDict (xs ++ ys)).
+  Proof.
+    intros H. rewrite !occs_dict, !flat_map_app. cbn [flat_map]. unfold pair_occs at 2. unfold dead. rewrite H. reflexivity.
+  Qed.
+
+  (* an all-null type-parameter list adds nothing, not even the paths of its dot-import
+     package tokens *)
+  Lemma occs_types_all_null gid o cl sep multi items :
+    forallb (is_null cfg t) items = true -> occs cfg t (CGroup gid s_types o cl sep multi items) = [].
+  Proof. intros H. rewrite occs_group, H. reflexivity. Qed.
+
+  (* by T1a: a tree without occs leaves the import table as it was *)
+  Lemma render_no_occs c ctx t1 s :
+    cfg_ok cfg -> occs cfg t c = [] -> render cfg ctx t c = Ok (t1, s) ->
+    (forall p, In p (akeys t1) <-> In p (akeys t)) /\ forall q, alookup q t1 = alookup q t.
+  Proof.
+    intros Hc Ho Hr. split.
+    - intros p. rewrite (render_registers_occs cfg Hc _ _ _ _ _ Hr p), Ho. simpl. tauto.
+    - intros q. apply (proj2 (render_keeps_entries cfg Hc _ _ _ _ _ Hr)). rewrite Ho. intros [].
+  Qed.
+End NullOccs.
+
+(* ------------------------------------------------------------------ qualifiers (C03) *)
+Lemma registered_name_entry t p q :
+  registered_name t p = Some q -> exists d, alookup p t = Some d /\ id_name d = q /\ q <> [] /\ q <> s_us.
+Proof.
+  unfold registered_name. destruct (alookup p t) as [d|]; [|discriminate].
+  destruct (str_eqb_spec (id_name d) []) as [E0|E0]; cbn [orb]; [discriminate|].
+  destruct (str_eqb_spec (id_name d) s_us) as [E1|E1]; [discriminate|].
+  intros H. injection H as <-. exists d. auto.
+Qed.
+
+Section Binding.
+  Variable cfg : config.
+  Hypothesis Hcfg : cfg_ok cfg.
+
+  (* a registered, non-dot path is written under its registered name by every render of a
+     Qual from that table or any extension of it, and the table is left alone *)
+  Lemma qual_uses_registered_name t1 p q :
+    is_local cfg p = false -> registered_name t1 p = Some q -> is_dot cfg t1 p = false ->
+    forall t2, ext cfg t1 t2 -> forall ctx gid n,
+      render cfg ctx t2 (qual gid p n) = Ok (t2, q ++ S "." ++ n).
+  Proof.
+    intros Hl Hk Hd t2 [K D] ctx gid n.
+    pose proof (keeps_registered _ _ _ _ K Hk) as Hk2.
+    apply render_qual_imported; [exact Hl | | rewrite D; exact Hd | exact Hk2].
+    unfold register. rewrite Hl, Hk2. reflexivity.
+  Qed.
+
+  (* an occurrence met DURING a render: whatever the table was when the Qual was reached,
+     if the table after the whole render keeps the table after the Qual (it always does:
+     render_keeps) and the path is not a dot import there, the text written is the FINAL
+     registered name *)
+  Lemma qual_occurrence_final_name ctx tm gid p n tm' s' t1 q :
+    render cfg ctx tm (qual gid p n) = Ok (tm', s') -> keeps tm' t1 ->
+    is_local cfg p = false -> is_dot cfg tm' p = false -> registered_name t1 p = Some q ->
+    s' = q ++ S "." ++ n.
+  Proof.
+    intros H K Hl Hd Hq. rewrite render_qual in H.
+    destruct (register cfg tm p) as [[t0 q0]|m] eqn:E0; [|discriminate].
+    rewrite Hl, orb_false_r in H. destruct (is_dot cfg t0 p) eqn:Ed0.
+    - injection H as <- <-. congruence.
+    - destruct (register cfg t0 p) as [[tb q']|m] eqn:E1; [|discriminate]. injection H as <- <-.
+      pose proof (register_returns_entry cfg Hcfg _ _ _ _ Hl E1) as Hk'.
+      pose proof (keeps_registered _ _ _ _ K Hk') as Hk1. rewrite Hq in Hk1. injection Hk1 as ->. reflexivity.
+  Qed.
+
+  (* QUALIFIER = BINDING for one render: every path of occs that is not a dot import has a
+     registration q in the final table; its entry d carries q; every Qual of that path
+     rendered from the final table or a later one reads q.name; the import block has the
+     line of (p, d) *)
+  Theorem render_qualifier_binding c ctx t t1 s cgo :
+    render cfg ctx t c = Ok (t1, s) ->
+    forall p, In p (occs cfg t c) -> is_dot cfg t1 p = false ->
+    exists q d,
+      registered_name t1 p = Some q /\ alookup p t1 = Some d /\ id_name d = q /\ q <> [] /\ q <> s_us /\
+      (forall t2, ext cfg t1 t2 -> forall ctx' gid n,
+          render cfg ctx' t2 (qual gid p n) = Ok (t2, q ++ S "." ++ n)) /\
+      (exists pre post, render_imports t1 cgo = pre ++ import_spec p d ++ [x0a] ++ post) /\
+      import_spec p d = (if id_alias d && negb (str_eqb p s_C) then q ++ S " " ++ GoQuote p else GoQuote p).
+  Proof.
+    intros H p Hp Hd.
+    destruct (render_occs_registered cfg Hcfg _ _ _ _ _ H p Hp) as [q Hq].
+    destruct (registered_name_entry _ _ _ Hq) as (d & Hl & Hn & Hne & Hnu).
+    exists q, d. split; [exact Hq|]. split; [exact Hl|]. split; [exact Hn|]. split; [exact Hne|]. split; [exact Hnu|].
+    split; [|split].
+    - apply qual_uses_registered_name; [eapply occs_not_local; exact Hp | exact Hq | exact Hd].
+    - apply render_imports_has_spec. apply alookup_In. exact Hl.
+    - unfold import_spec. rewrite Hn. reflexivity.
+  Qed.
+End Binding.
+
+Theorem file_qualifier_binding f t1 raw :
+  cfg_ok (file_cfg f) -> file_raw f = Ok (t1, raw) ->
+  forall p, In p (occs (file_cfg f) (f_imports f) (file_group f)) -> is_dot (file_cfg f) t1 p = false ->
+  exists q d,
+    registered_name t1 p = Some q /\ alookup p t1 = Some d /\ id_name d = q /\ q <> [] /\ q <> s_us /\
+    (forall t2, ext (file_cfg f) t1 t2 -> forall ctx' gid n,
+        render (file_cfg f) ctx' t2 (qual gid p n) = Ok (t2, q ++ S "." ++ n)) /\
+    (exists pre post, render_imports t1 (f_cgo f) = pre ++ import_spec p d ++ [x0a] ++ post) /\
+    import_spec p d = (if id_alias d && negb (str_eqb p s_C) then q ++ S " " ++ GoQuote p else GoQuote p).
+Proof.
+  intros Hc Hr. destruct (file_raw_render _ _ _ Hr) as (s & Hs & _).
+  exact (render_qualifier_binding (file_cfg f) Hc _ _ _ _ _ (f_cgo f) Hs).
+Qed.
+
+(* ---- unaliased entries ---- *)
+(* where a name written WITHOUT alias may come from: the cgo pseudo package, an ImportName
+   hint of the user (alias flag false, name non-empty), or jennifer's standard-library table *)
+Definition real_name_source (cfg : config) (p n : str) : Prop :=
+  (p = s_C /\ n = s_C) \/
+  (p <> s_C /\ exists h, alookup p (cfg_hints cfg) = Some h /\ id_name h <> [] /\ id_alias h = false /\ n = id_name h) \/
+  (p <> s_C /\ (forall h, alookup p (cfg_hints cfg) = Some h -> id_name h = []) /\ std_hint p <> [] /\ n = std_hint p).
+
+Lemma with_prefix_unaliased cfg u : with_prefix cfg u false = u.
+Proof. unfold with_prefix. rewrite andb_false_r. reflexivity. Qed.
+
+Lemma choose_name_unaliased cfg p name :
+  choose_name cfg p = (name, false) ->
+  (exists h, alookup p (cfg_hints cfg) = Some h /\ id_name h <> [] /\ id_alias h = false /\ name = id_name h) \/
+  ((forall h, alookup p (cfg_hints cfg) = Some h -> id_name h = []) /\ std_hint p <> [] /\ name = std_hint p).
+Proof.
+  unfold choose_name. destruct (alookup p (cfg_hints cfg)) as [h|].
+  - destruct (str_eqb_spec (id_name h) []) as [E0|E0]; cbn [negb].
+    + destruct (str_eqb_spec (std_hint p) []) as [E1|E1]; cbn [negb]; [discriminate|].
+      intros H. injection H as <-. right. split; [|split; [exact E1 | reflexivity]].
+      intros h' E. injection E as <-. exact E0.
+    + intros H. injection H as <- Ha. left. exists h. auto.
+  - destruct (str_eqb_spec (std_hint p) []) as [E1|E1]; cbn [negb]; [discriminate|].
+    intros H. injection H as <-. right. split; [|split; [exact E1 | reflexivity]]. intros h' E. discriminate.
+Qed.
+
+(* one register step that creates the entry of a path: if the entry is stored without alias
+   then the name is exactly one of the three sources - candidate number 0, no prefix *)
+Lemma register_unaliased cfg t p t' n :
+  register cfg t p = Ok (t', n) -> is_local cfg p = false -> registered_name t p = None ->
+  forall d, alookup p t' = Some d -> id_alias d = false -> id_name d = n /\ real_name_source cfg p n.
+Proof.
+  intros Hr Hl Hk d Hd Ha. apply register_cases in Hr.
+  destruct Hr as [Hl' | n Hl' Hk' | Hl' Hk' HC | name alias i Hl' Hk' HC Hc Hok Hmin]; try congruence.
+  - subst p. rewrite alookup_aset_same in Hd. injection Hd as <-. split; [reflexivity|]. left. split; reflexivity.
+  - rewrite alookup_aset_same in Hd. injection Hd as <-. cbn [id_alias id_name] in *.
+    apply orb_false_iff in Ha. destruct Ha as [-> Hu]. apply negb_false_iff, str_eqb_eq in Hu.
+    split; [reflexivity|]. rewrite Hu, str_eqb_refl. cbn [orb negb]. rewrite with_prefix_unaliased.
+    right. destruct (choose_name_unaliased _ _ _ Hc) as [H|H]; [left | right]; split; assumption.
+Qed.
+
+(* over a whole render: every entry stored without alias either was in the table before, or
+   its name comes from one of the three sources *)
+Theorem render_unaliased cfg c ctx t t1 s :
+  render cfg ctx t c = Ok (t1, s) ->
+  forall p d, alookup p t1 = Some d -> id_alias d = false ->
+    alookup p t = Some d \/ real_name_source cfg p (id_name d).
+Proof.
+  intros H.
+  apply (render_invariant cfg (fun t' => forall p d, alookup p t' = Some d -> id_alias d = false ->
+                                         alookup p t = Some d \/ real_name_source cfg p (id_name d))
+           ) with (c := c) (ctx := ctx) (t := t) (s := s); [|exact H | intros p d Hd _; left; exact Hd].
+  intros ta q tb n IH Hr p d Hd Ha.
+  pose proof Hr as Hcase. apply register_cases in Hcase.
+  destruct Hcase as [Hl | n Hl Hk | Hl Hk HC | name alias i Hl Hk HC Hc Hok Hmin]; try (apply IH; assumption).
+  - destruct (str_eq_dec p s_C) as [->|Hp].
+    + subst q. destruct (register_unaliased _ _ _ _ _ Hr Hl Hk d Hd Ha) as [-> Hs]. right. exact Hs.
+    + rewrite alookup_aset_other in Hd by congruence. apply IH; assumption.
+  - destruct (str_eq_dec p q) as [->|Hp].
+    + destruct (register_unaliased _ _ _ _ _ Hr Hl Hk d Hd Ha) as [-> Hs]. right. exact Hs.
+    + rewrite alookup_aset_other in Hd by congruence. apply IH; assumption.
+Qed.
+
+(* ---- distinct qualifiers ---- *)
+Lemma Inv_names_distinct t p1 p2 q1 q2 :
+  Inv t -> p1 <> p2 -> registered_name t p1 = Some q1 -> registered_name t p2 = Some q2 -> q1 = q2 -> q1 = s_dot.
+Proof.
+  intros HI Hne H1 H2 E.
+  destruct (registered_name_entry _ _ _ H1) as (d1 & L1 & N1 & _ & U1).
+  destruct (registered_name_entry _ _ _ H2) as (d2 & L2 & N2 & _ & _).
+  assert (Hs : special (id_name d1)).
+  { apply (inv_unique _ HI p1 d1 p2 d2); auto using alookup_In. congruence. }
+  destruct Hs as [Hs|Hs]; congruence.
+Qed.
+
+Lemma file_render_Inv f t1 raw :
+  cfg_ok (file_cfg f) -> file_raw f = Ok (t1, raw) -> Inv (f_imports f) -> Inv t1.
+Proof. intros Hc Hr. destruct (file_raw_render _ _ _ Hr) as (s & Hs & _). eapply render_Inv; eassumption. Qed.
+
+Lemma anon_Inv f ps : ~ In s_C ps -> Inv (f_imports f) -> Inv (f_imports (anon f ps)).
+Proof.
+  unfold anon. cbn [f_imports set_imports]. generalize (f_imports f) as t.
+  induction ps as [|x ps IH]; intros t Hn H; cbn [fold_left]; [exact H|].
+  apply IH; [intros Hin; apply Hn; right; exact Hin|].
+  apply Inv_aset; [exact H | left; left; reflexivity|]. cbn [id_name]. discriminate.
+Qed.
+
+Theorem file_names_distinct f t1 raw :
+  cfg_ok (file_cfg f) -> Inv (f_imports f) -> file_raw f = Ok (t1, raw) ->
+  forall p1 p2 q1 q2, p1 <> p2 ->
+    registered_name t1 p1 = Some q1 -> registered_name t1 p2 = Some q2 -> q1 = q2 -> q1 = s_dot.
+Proof.
+  intros Hc HI Hr p1 p2 q1 q2. apply Inv_names_distinct. eapply file_render_Inv; eassumption.
+Qed.
+
+(* ------------------------------------------------------------------ packaged statements *)
+Theorem render_occs_exact cfg : cfg_ok cfg -> forall c ctx t t1 s,
+  render cfg ctx t c = Ok (t1, s) ->
+  (forall p, In p (akeys t1) <-> In p (akeys t) \/ In p (occs cfg t c)) /\
+  (forall q, ~ In q (occs cfg t c) -> alookup q t1 = alookup q t).
+Proof.
+  intros Hc c ctx t t1 s H.
+  exact (conj (render_registers_occs cfg Hc c ctx t t1 s H) (proj2 (render_keeps_entries cfg Hc c ctx t t1 s H))).
+Qed.
+
+Theorem paths_stay_distinct f :
+  NoDup (akeys (f_imports f)) ->
+  (forall ps, NoDup (akeys (f_imports (anon f ps)))) /\
+  (forall t1 raw, file_raw f = Ok (t1, raw) -> NoDup (akeys t1)).
+Proof.
+  intros H. split; [intros ps; exact (anon_NoDup f ps H) | intros t1 raw Hr; exact (file_render_NoDup f t1 raw Hr H)].
+Qed.
+
+(* outside qual_only the hints do matter, in the model's tree type: a bare package token
+   that is an item of a Statement is skipped as null under a dot hint and registered
+   without it *)
+Theorem hints_inert_bare_token_refuted :
+  exists cfg cfg' c t1 s t1' s',
+    cfg_ok cfg /\ cfg_ok cfg' /\ cfg_path cfg = cfg_path cfg' /\
+    render cfg false [] c = Ok (t1, s) /\ render cfg' false [] c = Ok (t1', s') /\
+    akeys t1 = [] /\ akeys t1' = [S "a/b"].
+Proof.
+  exists (mkcfg [] [] [(S "a/b", mkdef s_dot true)]), (mkcfg [] [] []),
+         (CStmt [CTok (TkPkg (S "a/b")); CTok (TkId (S "X"))]).
+  eexists _, _, _, _. split; [|split; [|split; [reflexivity|]]].
+  - split; [|left; reflexivity]. intros p h. simpl. destruct (str_eqb p (S "a/b")); [|discriminate].
+    intros E. injection E as <-. right. left. reflexivity.
+  - split; [intros p h E; discriminate | left; reflexivity].
+  - vm_compute. repeat split; reflexivity.
+Qed.
+
+(* a File built from a new File by Anon (not of "C") satisfies the naming invariant, and
+   File.Render keeps it *)
+Theorem fresh_file_Inv f ps : f_imports f = [] -> ~ In s_C ps -> Inv (f_imports (anon f ps)).
+Proof. intros E Hn. apply anon_Inv; [exact Hn|]. rewrite E. exact Inv_nil. Qed.
